@@ -12,7 +12,9 @@ Go bytes; `none` must coincide with a Go panic), unmarshals *the Go bytes* `++ r
 value and consumed count must equal the Go answer) and evaluates the property on the Go answer itself:
 decoded = encoded (`sortRefs` of it for the lists that `Marshal` sorts) — clause `roundtrip` — and
 consumed = number of marshalled bytes — clause `consumed`.  Values outside the property's domain (a mixed
-element with both halves set, a member type ≥ 4) are only compared with the model.
+element / polygon with both halves set) are only compared with the model; member lists with a type ≥ 4 are the
+recorded finding `member-type-wide` (`propfail roundtrip class=member-type-wide` when the Go answer is the one
+the model predicts).
 
 Value tokens (flat prefix notation, counts first):
   ref `tn:value` · ll `lat,lng` · refs `n ref…` · lls `n ll…` · mixed `n ref/ll…` · bits `0110…|-` · ints `n int…`
@@ -207,12 +209,20 @@ structure Codec where
   decode : Bytes → Option (String × Nat)
   /-- value inside the property's domain (otherwise only model = implementation is checked) -/
   inDomain : Bool := true
+  /-- the value belongs to a recorded finding class (KNOWN_FINDINGS.txt): a property failure on it that the
+  model predicts is reported as `propfail <clause> class=<name>` -/
+  knownClass : Option String := none
 
 def mk {α : Type} (p : P α) (ts : List String) (marshal : α → Option Bytes) (expect : α → α) (render : α → String)
-    (dec : Dec α) (dom : α → Bool := fun _ => true) : Option Codec :=
+    (dec : Dec α) (dom : α → Bool := fun _ => true) (cls : α → Option String := fun _ => none) : Option Codec :=
   (parseAll p ts).map fun v =>
     { marshal := marshal v, expected := render (expect v),
-      decode := fun bs => (dec bs).map fun r => (render r.1, r.2), inDomain := dom v }
+      decode := fun bs => (dec bs).map fun r => (render r.1, r.2), inDomain := dom v, knownClass := cls v }
+
+/-- finding `member-type-wide`: a member whose type does not fit `FeatureTypeBits` (the negation of the
+hypothesis of `members_roundtrip_partial`) -/
+def memberClass (ms : List Member) : Option String :=
+  if ms.all Member.typeOk then none else some "member-type-wide"
 
 def stripBang (k : String) : String := if k.endsWith "!" then sdropEnd k 1 else k
 
@@ -232,7 +242,7 @@ def codecFor (kind : String) (params : List String) (ts : List String) : Option 
         Tags.canonical
   | "mtags", [p] => (u16Of p).bind fun p => mk pTags ts (Tags.marshal p) id rTags (Tags.dec p)
   | "members", [p] => (u16Of p).bind fun p =>
-      mk pMembers ts (Members.marshal p) id rMembers (Members.dec p) (fun ms => ms.all Member.typeOk)
+      mk pMembers ts (Members.marshal p) id rMembers (Members.dec p) (fun _ => true) memberClass
   | "agr", [p] => (u16Of p).bind fun p => mk pAGR ts (AreaGeomRefs.marshal p) id rAGR (AreaGeomRefs.dec p)
   | "agl", [] => mk pAGL ts AreaGeomLL.marshal id rAGL AreaGeomLL.dec
   | "agm", [p] => (u16Of p).bind fun p =>
@@ -269,7 +279,7 @@ def codecFor (kind : String) (params : List String) (ts : List String) : Option 
   | "relation", [t, n] => (i64Of t).bind fun t => (nssOf n).bind fun n =>
       mk (do let tg ← pTags; let m ← pMembers; let r ← pRefs; pure (⟨tg, m, r⟩ : Relation)) ts (Relation.marshal t n) id
         (fun r => j [rTags r.tags, rMembers r.members, rRefs r.relations]) (Relation.dec t n)
-        (fun r => Tags.canonical r.tags && r.members.all Member.typeOk)
+        (fun r => Tags.canonical r.tags) (fun r => memberClass r.members)
   | "ints", [] =>
       -- `UnmarshalDeltaCodedInts(vs, n, buffer)` is given the count by its caller: the harness passes `len(v)`
       (parseAll pInts ts).map fun v =>
@@ -358,7 +368,12 @@ def step (_ : Unit) (op impl : String) : Unit × Verdict :=
                   else if nI != bytesI.length then some "consumed"
                   else none
                 match viol with
-                | some clause => ((), .propfail clause)
+                | some clause =>
+                  match c.knownClass with
+                  | some cls =>
+                    -- recorded finding: reported as such only when the implementation does what the model predicts
+                    if impl == modelAnswer then ((), .propfail s!"{clause} class={cls}") else ((), .diff modelAnswer)
+                  | none => ((), .propfail clause)
                 | none =>
                   -- model decode of the *Go* bytes
                   let md := match c.decode (bytesI ++ rest) with
